@@ -501,6 +501,100 @@ def r8(ctx):
     ctx.share("C01.R8", C10.r2, "C10.R2", floor=3)
 
 
+def r9(ctx):
+    """the message that opens a session (ranger::Store::initial_message -> Message::init, reached through
+    Replica::sync_initial_message) evaluated with the store answered by an oracle: exactly one part, the fingerprint of the
+    *whole* set - the circular range [x, x) anchored at the store's first key - as the store computes it for that very range;
+    a failing store call is an error, never an empty or partial message (a first message that covered less than everything would
+    leave the uncovered keys unreconciled for good: the peer only ever answers about ranges it was asked about). The replica hands
+    it out only while open."""
+    from . import feval as E, coll
+    f = ctx.facts
+    IM = "ranger::Store::initial_message"
+    b = f.body(IM)
+    ctx.touch(b, f.body("ranger::Message::<E>::init"))
+    for first_ok in (1, 0):
+        for fp_ok in (1, 0):
+            if not first_ok and not fp_ok:
+                continue
+            C = coll.Collections(f)
+            log = []
+
+            def oracle(kind, name, payload, site):
+                if kind != "call":
+                    return None
+                t, args, it = payload
+                names = [it.tokname(a).strip("&*") for a in args]
+                if name == "get_first":
+                    log.append(("get_first",))
+                    return E.Ok(E.Tok("first-key")) if first_ok else E.Err(E.Tok("store-error"))
+                if name == "get_fingerprint":
+                    rng = E.describe(it.resolve(args[1]), f)
+                    log.append(("get_fingerprint", rng))
+                    return E.Ok(E.Tok("fingerprint-of(%s)" % rng)) if fp_ok else E.Err(E.Tok("store-error"))
+                if name in ("get_range", "get_range_len", "prefixes_of", "entry_put", "remove_prefix_filtered", "put"):
+                    log.append((name,))
+                    return None
+                if name == "clone":
+                    return it.deref_val(args[0]) if args[0][0] == "ref" else args[0]
+                return C.handle(kind, name, payload, site)
+            key = "initial-message[get_first=%s,get_fingerprint=%s]" % ("ok" if first_ok else "err", "ok" if fp_ok else "err")
+            try:
+                ret, itp = E.run_it(f, IM, [E.href("store")], {"store": E.Tok("store")}, oracle)
+                r = itp.resolve(ret)
+                parts = None
+                if r is not None and r[0] == "adt" and r[1] == E.RESULT and r[2] == 0:
+                    msg = itp.resolve(r[3][0])
+                    pv = itp.resolve(E.field(f, msg, "ranger::Message", "parts"))
+                    parts = [E.describe(itp.resolve(x), f) for x in pv[2]] if coll.is_seq(pv) else None
+                    full = []
+                    for x in (pv[2] if coll.is_seq(pv) else []):
+                        xv = itp.resolve(x)
+                        var = f.adt("ranger::MessagePart")["variants"][xv[2]]["name"] if xv is not None and xv[0] == "adt" else "?"
+                        inner = itp.resolve(xv[3].get(0)) if xv is not None and xv[0] == "adt" else None
+                        full.append((var, E.describe(inner, f)))
+                    parts = full
+                got = (E.describe(ret, f)[:40], parts)
+            except E.Unsupported as e:
+                ctx.bad("C01.R9", IM, key, "UNSUPPORTED-FORM: %s" % e, b.sp)
+                continue
+            if first_ok and fp_ok:
+                want_parts = [("RangeFingerprint", "RangeFingerprint(Range(first-key,first-key),fingerprint-of(Range(first-key,first-key)))")]
+                ok = got[1] == want_parts and not [x for x in log if x[0] not in ("get_first", "get_fingerprint")]
+            else:
+                ok = got[0].startswith("Err") and got[1] is None
+            ctx.check(ok, "C01.R9", IM, key, "returns %s, parts %s, store calls %s; spec: %s" % (got[0], got[1], log,
+                      "one part: the fingerprint of the full circular range [first, first), computed by the store for that range" if (first_ok and fp_ok) else "the store's error"), b.sp)
+    # the replica's entry point: only while open, and it is the store's initial message
+    sim = f.body("sync::Replica::<'a, I>::sync_initial_message")
+    ctx.touch(sim)
+    for closed in (0, 1):
+        log = []
+
+        def oracle2(kind, name, payload, site):
+            if kind != "call":
+                return None
+            t, args, it = payload
+            if name == "initial_message":
+                log.append("initial_message(%s)" % it.tokname(args[0]).strip("&*"))
+                return E.Ok(E.Tok("the-initial-message"))
+            if name in ("deref", "deref_mut"):
+                return None
+            return None
+        heap = {"info": E.struct(f, "sync::ReplicaInfo", capability=E.Tok("capability"), subscribers=E.Tok("subscribers"), content_status_cb=E.NONE, closed=E.Int(closed))}
+        heap["self"] = E.struct(f, "sync::Replica", store=E.Tok("store"), info=E.href("info"))
+        key = "replica-initial-message[%s]" % ("closed" if closed else "open")
+        try:
+            ret, itp = E.run_it(f, sim.path, [E.href("self")], heap, oracle2)
+            got = E.describe(itp.resolve(ret), f)
+        except E.Unsupported as e:
+            ctx.bad("C01.R9", sim.path, key, "UNSUPPORTED-FORM: %s" % e, sim.sp)
+            continue
+        ok = (got.startswith("Err") and not log) if closed else (got == "Ok(the-initial-message)" and len(log) == 1 and "store" in log[0])
+        ctx.check(ok, "C01.R9", sim.path, key, "returns %s, calls %s; spec: %s" % (got, log, "an error, the store is not asked" if closed else "the store's initial message"), sim.sp)
+    ctx.floor("C01.R9", 5)
+
+
 def run(ctx):
     ctx.run_rule("C01.R1", r1)
     ctx.run_rule("C01.R2", r2)
@@ -510,3 +604,4 @@ def run(ctx):
     ctx.run_rule("C01.R6", r6)
     ctx.run_rule("C01.R7", r7)
     ctx.run_rule("C01.R8", r8)
+    ctx.run_rule("C01.R9", r9)
